@@ -53,7 +53,7 @@ def run (caseToks impl : List String) : String :=
   if caseToks.head? == some "flg" then C10Flags.run caseToks impl else  -- c10r7: request-info flags × end causes
   -- the real pools' ledger (kinds of harness/c09: multiplex pool with one-way requests, HTTP/2 pool): the predicate is the
   -- observation predicate of the pool models — counters equal the truth after every operation
-  if caseToks.head? == some "mux" || caseToks.head? == some "h2p" || caseToks.head? == some "win" || caseToks.head? == some "mxw" || caseToks.head? == some "h2w" then MosnVerif.Drive.C09.run caseToks impl else
+  if caseToks.head? == some "mux" || caseToks.head? == some "h2p" || caseToks.head? == some "win" || caseToks.head? == some "mxw" || caseToks.head? == some "h2w" || caseToks.head? == some "bnd" then MosnVerif.Drive.C09.run caseToks impl else
   match parseCase caseToks, parseImpl impl with
   | some cs, some i =>
     let out := renderOut cs
